@@ -281,6 +281,160 @@ def locks_part(ctx, cov):
     return viols
 
 
+def c16(ctx):
+    """Type registry: registry traces for many registration counts and interleavings, both builds."""
+    mc = [model_check(ctx, 'MCRegistry.tla', 'MCRegistry.cfg', timeout=600)]
+    jobs = []
+    for tags, limit in (('verif', 256), ('verif,tiny', 64)):
+        if ctx.quick:
+            counts = sorted({0, 1, 15, 16, 17, limit - 17, limit - 16, limit - 15, limit - 1, limit, limit + 1})
+            combos = [(c, (c + ctx.seed) % 3) for c in counts]
+        else:
+            combos = [(c, i) for c in range(0, limit + 2) for i in range(3)]
+        chunks = 2 if ctx.quick else NCPU // 2
+        for k in range(chunks):
+            jobs.append((tags, [cb for n, cb in enumerate(combos) if n % chunks == k], k))
+    def run(job):
+        tags, combos, k = job
+        h = build_harness(ctx, tags)
+        out = ctx.path('registry-%s-%d.ndjson' % (tags.replace(',', '-'), k))
+        with open(out, 'w') as f:
+            for (count, inter) in combos:
+                part = out + '.part'
+                r = sh([h, 'registry', '-seed', str(ctx.seed), '-count', str(count), '-interleave', str(inter), '-out', part],
+                       timeout=300)
+                if r.returncode != 0:
+                    raise Infra('registry mode failed: ' + r.stdout[-2000:])
+                f.write(open(part).read())
+                os.remove(part)
+        return out, tags, combos
+    built = [build_harness(ctx, t) for t in ('verif', 'verif,tiny')]
+    files = parallel(run, jobs)
+    results = parallel(lambda f: validate(ctx, f[0], module='TraceRegistry.tla', cfg='TraceRegistry.cfg'), files)
+    viols = []
+    nlines = nchecks = nruns = 0
+    samples = []
+    distinct = set()
+    for (f, tags, combos), r in zip(files, results):
+        nlines += r['lines']
+        nchecks += r['checks']['C16']
+        nruns += len(combos)
+        lines = read_lines(f)
+        for ln in lines:
+            if ln['op'] in ('register', 'use', 'registerRes'):
+                distinct.add(digest([ln['op'], ln.get('type'), ln.get('shape'), ln.get('locked'), ln.get('a'), ln.get('b'), ln['op'] == 'register' and len(ln['snap']['ids'])]))
+        if len(samples) < 2:
+            samples.append([l for l in lines if l['op'] == 'register'][:1] + [l for l in lines if l['op'] == 'use'][:1])
+        for v in r['violations']:
+            hdr = [l for l in lines[:v['line']] if l['op'] == 'hdr'][-1]
+            viols.append(('check=%s build=%s count=%d interleave=%d' % (v['check'], tags, hdr['count'], hdr['interleave']),
+                          dict(mode='registry', seed=ctx.seed, tags=tags, count=hdr['count'], interleave=hdr['interleave'],
+                               check=v['check'], line=lines[v['line'] - 1])))
+    seen = set()
+    nv = 0
+    for desc, payload in viols:
+        key = (payload['tags'], payload['count'], payload['interleave'])
+        if key in seen:
+            continue
+        seen.add(key)
+        d = os.path.join(VERIF, 'evidence', 'replays')
+        os.makedirs(d, exist_ok=True)
+        p = os.path.join(d, 'C16-%d-%d.json' % (ctx.seed, nv))
+        json.dump(payload, open(p, 'w'))
+        if nv < 5:
+            print('VIOLATION property=C16 replay=%s' % p)
+            print('  ' + desc, flush=True)
+        nv += 1
+    cov = dict(states=sum(m['distinct'] for m in mc), transitions=sum(m['generated'] for m in mc),
+               traces_validated_against_impl=nruns, evaluations=nchecks, distinct_nontrivial=len(distinct),
+               rule='one trace per (build, number of registered types, interleaving pattern); a case is a registration '
+                    '(type shape, locked or not, registry size) or a usability probe of a registered id (create, has, get, '
+                    'write/read, add, remove, re-add zeroed, query, mask, relation, remove entity); distinct by digest',
+               samples=samples, model_checking=mc, trace_lines=nlines, exhaustive=not ctx.quick)
+    write_evidence(ctx, 'model_checking', cov,
+                   ['Registry.tla states the intended registry semantics; MCRegistry checks the layout bookkeeping with the real constants',
+                    'component types are made at run time with reflect (struct/array/pointer shapes)'], nv)
+    ctx.log('%d registry runs, %d lines, %d checks, %d violations' % (nruns, nlines, nchecks, nv))
+    return 1 if nv else 0
+
+
+def c13(ctx):
+    """Determinism: the same schedules in three processes; traces identical (TLC), first one conforms exactly."""
+    h = build_harness(ctx)
+    n = 120 if ctx.quick else 1200
+    profs = ['base', 'relations', 'batch']
+    chunks = 4 if ctx.quick else NCPU
+    jobs = [(os.path.join(PROF, profs[k % len(profs)] + '.json'), ctx.seed * 100 + k, max(1, n // chunks), 'det-%d' % k)
+            for k in range(chunks)]
+    gens = parallel(lambda j: gen_traces(ctx, j[0], j[1], j[2], label=j[3]), jobs)
+    envs = [dict(GOGC='1', GOMAXPROCS='1', VERIF_GCSTRESS='1'), dict(GOGC='off', GOMAXPROCS='16'),
+            dict(GOGC='400', GOMAXPROCS='3', VERIF_GCSTRESS='1', GODEBUG='gcstoptheworld=1')]
+    def rerun(job):
+        (trace, sched), k, env = job
+        out = ctx.path('rerun-%s-%d.ndjson' % (os.path.basename(sched), k))
+        r = subprocess.run([h, 'run', '-in', sched, '-out', out], env=dict(os.environ, **env), stdout=subprocess.PIPE,
+                           stderr=subprocess.STDOUT, text=True, timeout=900)
+        if r.returncode != 0:
+            raise Infra('runner failed: ' + r.stdout[-2000:])
+        return trace, sched, out
+    reruns = parallel(rerun, [(g, k, envs[k]) for g in gens for k in range(len(envs))])
+    def compare(t):
+        trace, sched, out = t
+        nl = sum(1 for _ in open(trace))
+        rc, o = tlc(ctx, 'TraceEq.tla', 'TraceEq.cfg', env={'TRACE': trace, 'TRACE2': out}, timeout=900)
+        m = re.search(r'<<"RESULT", "(.*)">>', o)
+        if not m:
+            raise Infra('trace comparison failed:\n' + o[-2000:])
+        return json.loads(json.loads('"' + m.group(1) + '"'))
+    cmp_results = parallel(compare, reruns)
+    conf = parallel(lambda g: validate(ctx, g[0]), gens)
+    viols = []
+    for (trace, sched, out), r in zip(reruns, cmp_results):
+        for v in r['violations']:
+            viols.append((trace, sched, schedule_of_line(read_lines(trace), v['line']), v))
+    drift = 0
+    nlines = nsched = 0
+    samples = []
+    distinct = set()
+    for (trace, sched), r in zip(gens, conf):
+        lines = read_lines(trace)
+        nlines += len(lines)
+        nsched += sum(1 for l in lines if l['op'] == 'NewWorld')
+        for ln in lines:
+            if ln['op'] != 'NewWorld':
+                distinct.add(digest([ln['op'], ln['api'], ln['args'], ln['res'], ln.get('events')]))
+        if len(samples) < 2:
+            samples.append(dict(schedule=lines[0]['args']['name'], first_ops=[dict(op=l['op'], args=l['args'], res=l['res']) for l in lines[1:4]]))
+        drift += sum(1 for v in r['violations'] if v['prop'] == 'DRIFT')
+        for v in r['violations']:
+            if v['prop'] == 'C13':
+                viols.append((trace, sched, schedule_of_line(lines, v['line']), v))
+    replays = []
+    seen = set()
+    for trace, sched, k, v in viols:
+        if (sched, k) in seen or len(replays) >= 5:
+            continue
+        seen.add((sched, k))
+        p = save_replay(ctx, sched, k, len(replays))
+        replays.append(p)
+        print('VIOLATION property=C13 replay=%s' % p)
+        print('  check=%s op=%s step=%d (trace line %d)' % (v['check'], v['op'], v['i'], v['line']), flush=True)
+    mc = [model_check(ctx, 'MCPool.tla', 'MCPool.cfg', timeout=600)]
+    cov = dict(states=sum(m['distinct'] for m in mc), transitions=sum(m['generated'] for m in mc),
+               traces_validated_against_impl=nsched, evaluations=nlines * len(envs), distinct_nontrivial=len(distinct),
+               rule='every schedule is executed in 4 processes (the recording one and 3 replays with GOGC=1+concurrent '
+                    'forced GC+GOMAXPROCS=1, GOGC=off+GOMAXPROCS=16, GOGC=400+forced GC+gcstoptheworld); TLC compares '
+                    'the traces line by line (handles, iteration order, events, return values, pool dumps); a case is a '
+                    'distinct (operation, arguments, outcome, events) line',
+               samples=samples, model_checking=mc, process_settings=envs, hidden_state_drift_lines=drift, exhaustive=False)
+    write_evidence(ctx, 'model_checking', cov,
+                   ['the specification is deterministic by construction (function lookups only, no enumeration of Go maps)',
+                    'hash-map seeding differs between processes by Go runtime design; GC timing is varied by GOGC and forced collections'],
+                   len(replays))
+    ctx.log('%d schedules x %d processes, %d lines compared, %d violations, %d drift lines' % (nsched, len(envs) + 1, nlines, len(replays), drift))
+    return 1 if replays else 0
+
+
 def c04(ctx):
     """Masks and filters: recorded calls on real values, judged by the set semantics."""
     mc = [model_check(ctx, 'MCMasks.tla', 'MCMasks.cfg', timeout=600)]
@@ -352,6 +506,8 @@ PROPS = {
     'C11': W(rel_C11, [('events', 200, 2500)]),
     'C12': lambda ctx: world_check(ctx, rel_C12, [('subs', 200, 2500)], assumptions=A_WORLD,
                                    mcs=[('MCEvents.tla', 'MCEvents.cfg' if ctx.quick else 'MCEvents_thorough.cfg', dict(timeout=1800))]),
+    'C16': c16,
+    'C13': c13,
     'C15': W(rel_C15, [('resettwin', 160, 2000), ('reset', 40, 500)], pool=True),
     'C17': lambda ctx: world_check(ctx, rel_C17, [('loadtwin', 200, 2500)], mcs=mc_pool(ctx), assumptions=A_WORLD),
     'C20': W(rel_C20, [('base', 60, 1000), ('resources', 140, 1500)]),
